@@ -1,5 +1,5 @@
 # replay of a bounded stand-in violation: re-run native/c01_backends.py
 import sys
-print("S2gate(0.25, 0.5) | (q[0], q[1]) of 2 after Del | q[0] (indices shifted by one) on fock: raised ValueError: axes don't match array")
+print("BSgate(0.45, 0.7) | (q[1], q[0]) of 2 on bosonic: ('quad', 0, 0.0) = [0.5109, 0.8449], the documented action gives [0.1691, 0.8449]")
 print('REPLAY-VIOLATION')
 sys.exit(1)
